@@ -43,10 +43,12 @@ package opset13
 //@ family new*
 //@   tags C15,C01,C18
 //@   ensures result != nil && fresh(result) && isoperator(result)
+//@   ensures attribute_state_unshared: unshared(result)
 
 //@ func GetOperator
 //@   tags C15,C01,C18
 //@   ensures known: operatorType in operators13 ==> err == nil && result != nil && fresh(result) && isoperator(result)
+//@   ensures attribute_state_unshared: operatorType in operators13 ==> unshared(result)
 //@   ensures unknown: !(operatorType in operators13) ==> result == nil && errIs(err, ErrUnsupportedOperator)
 
 // ---------------------------------------------------------------------------------------
